@@ -111,10 +111,11 @@ func dump(v reflect.Value) *Tree {
 	panic(fmt.Sprintf("harness: sqlast: unsupported kind %s (%s)", v.Kind(), v.Type()))
 }
 
-// filled: the child holds something – a non-nil node, a non-empty list, a non-empty string, `true`, a number.
+// filled: the child holds something – a non-nil pointer to a node, a non-empty list, a non-empty string, `true`, a
+// number other than 0, a struct value with a filled field.
 func filled(k *Tree) bool {
 	if k.IsAtom {
-		return len(k.Atom) > 0 && string(k.Atom) != "false" && string(k.Atom) != "-"
+		return len(k.Atom) > 0 && string(k.Atom) != "false" && string(k.Atom) != "-" && string(k.Atom) != "0"
 	}
 	if k.Kind == "nil" {
 		return false
@@ -122,7 +123,13 @@ func filled(k *Tree) bool {
 	if k.Names == nil {
 		return len(k.Kids) > 0 // list
 	}
-	return true
+	// a struct value (TableName, TableIdent, ColIdent): filled when one of its fields is
+	for _, c := range k.Kids {
+		if filled(c) {
+			return true
+		}
+	}
+	return false
 }
 
 // PresentFields: the names of the filled fields of a struct node, in declaration order.
